@@ -15,7 +15,8 @@
                -> hand over.
 
    A stored stream is a sequence over  "L" log batch, "D" the data batch, "X" a further data batch, "P" a batch
-   carrying vgi_rpc.location, "S" the data batch under a different schema, "O" a data batch of another object.
+   carrying vgi_rpc.location, "S" the data batch under a different schema, "O" a data batch of another object,
+   "F" a log batch and "E" an EXCEPTION-level batch of another (substituted) object.
    `log` is the history the driver records from the real code; the clauses are operators over (case, log).      *)
 EXTENDS Integers, Sequences, FiniteSets, TLC, Json
 
@@ -27,7 +28,9 @@ CONSTANTS Kinds,        \* subset of {"unary", "collector", "header", "request"}
 
 LayoutSeq(n) == CASE n = "D" -> <<"D">> [] n = "LD" -> <<"L", "D">> [] n = "LLD" -> <<"L", "L", "D">>
                   [] n = "LDL" -> <<"L", "D", "L">>
-ByteCors == {"flip", "trunc", "subst"}
+\* changes of the object as a whole, detectable only through the checksum: damaged bytes, or another well-formed
+\* object of the same schema (plain, with its own log batches, with an EXCEPTION batch)
+ByteCors == {"flip", "trunc", "subst", "subst_logs", "subst_exc"}
 StructCors == {"nested_before", "nested_after", "nested_only", "extra", "zero", "schema"}
 PtrShas == {"kept", "stripped", "forged"}
 
@@ -70,7 +73,7 @@ Produce ==
 \* inline delivery: log batches to on_log in order, the data batch to the caller
 Inline == /\ pc = "inline"
           /\ nlogs' = Count(LayoutSeq(c.layout), "L")
-          /\ log' = log \o [i \in 1..Count(LayoutSeq(c.layout), "L") |-> [e |-> "log"]]
+          /\ log' = log \o [i \in 1..Count(LayoutSeq(c.layout), "L") |-> [e |-> "log", forged |-> FALSE]]
                         \o <<[e |-> "deliver", what |-> "D", logs |-> Count(LayoutSeq(c.layout), "L"), logs_ok |-> TRUE]>>
           /\ pc' = "done"
           /\ UNCHANGED <<c, store, psum, todo, seen>>
@@ -81,6 +84,8 @@ Tamper ==
   /\ store' = CASE c.cor = "none"  -> store
                 [] c.cor \in {"flip", "trunc"} -> [store EXCEPT !.bytes = "damaged"]
                 [] c.cor = "subst" -> [store EXCEPT !.seq = <<"O">>, !.bytes = "other"]
+                [] c.cor = "subst_logs" -> [store EXCEPT !.seq = <<"F", "O", "F">>, !.bytes = "other"]
+                [] c.cor = "subst_exc" -> [store EXCEPT !.seq = <<"E", "O">>, !.bytes = "other"]
                 [] c.cor = "nested_before" -> [store EXCEPT !.seq = InsertAt(@, Pos(@, "D"), "P"), !.bytes = "other"]
                 [] c.cor = "nested_after"  -> [store EXCEPT !.seq = InsertAt(@, Pos(@, "D") + 1, "P"), !.bytes = "other"]
                 [] c.cor = "nested_only"   -> [store EXCEPT !.seq = Replace(@, "D", "P"), !.bytes = "other"]
@@ -107,7 +112,10 @@ Walk ==
   /\ pc = "walk" /\ todo # <<>>
   /\ LET x == Head(todo) IN
        IF x = "P" THEN Reject("loop") /\ UNCHANGED <<todo, seen, nlogs>>
-       ELSE IF x = "L" THEN /\ nlogs' = nlogs + 1 /\ Ev([e |-> "log"]) /\ todo' = Tail(todo) /\ UNCHANGED <<seen, pc>>
+       ELSE IF x = "E" THEN Reject("forged_error") /\ UNCHANGED <<todo, seen, nlogs>>
+       ELSE IF x \in {"L", "F"}
+            THEN /\ nlogs' = nlogs + 1 /\ Ev([e |-> "log", forged |-> (x = "F")]) /\ todo' = Tail(todo)
+                 /\ UNCHANGED <<seen, pc>>
        ELSE /\ seen' = Append(seen, x) /\ todo' = Tail(todo) /\ UNCHANGED <<nlogs, log, pc>>
   /\ UNCHANGED <<c, store, psum>>
 Finish ==
@@ -132,13 +140,19 @@ Transparent(cs, lg) ==
 \* the pointer carries a checksum that the stored payload no longer matches
 ShaDiffers(cs) == cs.cor # "none" /\ cs.psha = "kept" /\ HasSha(cs)
 ShaEnforced(cs, lg) == ShaDiffers(cs) => ~Delivered(lg)
+\* nothing carried inside an object whose checksum does not match the pointer's reaches application code: no log
+\* message is dispatched to on_log and no error batch of that object is raised as the call's error
+NothingDeliveredBeforeAuthenticated(cs, lg) ==
+  ShaDiffers(cs) => \A i \in 1..Len(lg) : /\ lg[i].e # "log"
+                                          /\ (lg[i].e = "reject" => lg[i].why # "forged_error")
 NoNestedPointer(cs, lg) == cs.cor \in {"nested_before", "nested_after", "nested_only"} => ~Delivered(lg)
 SingleDataBatch(cs, lg) == cs.cor \in {"extra", "zero"} => ~Delivered(lg)
 SchemaEnforced(cs, lg) == cs.cor = "schema" => ~Delivered(lg)
 
-ClauseNames == {"Transparent", "ShaEnforced", "NoNestedPointer", "SingleDataBatch", "SchemaEnforced"}
+ClauseNames == {"Transparent", "ShaEnforced", "NothingDeliveredBeforeAuthenticated", "NoNestedPointer", "SingleDataBatch", "SchemaEnforced"}
 Holds(n, cs, lg) == CASE n = "Transparent" -> Transparent(cs, lg)
                       [] n = "ShaEnforced" -> ShaEnforced(cs, lg)
+                      [] n = "NothingDeliveredBeforeAuthenticated" -> NothingDeliveredBeforeAuthenticated(cs, lg)
                       [] n = "NoNestedPointer" -> NoNestedPointer(cs, lg)
                       [] n = "SingleDataBatch" -> SingleDataBatch(cs, lg)
                       [] n = "SchemaEnforced" -> SchemaEnforced(cs, lg)
@@ -147,6 +161,7 @@ Violated(cs, lg) == {n \in ClauseNames : ~Holds(n, cs, lg)}
 \* evaluated on complete histories (every behaviour ends in pc = "done": deadlock check on, see Terminated)
 InvTransparent == pc = "done" => Transparent(c, log)
 InvShaEnforced == pc = "done" => ShaEnforced(c, log)
+InvNothingDeliveredBeforeAuthenticated == pc = "done" => NothingDeliveredBeforeAuthenticated(c, log)
 InvNoNestedPointer == pc = "done" => NoNestedPointer(c, log)
 InvSingleDataBatch == pc = "done" => SingleDataBatch(c, log)
 InvSchemaEnforced == pc = "done" => SchemaEnforced(c, log)
